@@ -25,6 +25,7 @@ DEPS = os.path.join(ROOT, ".deps")
 WHEELS = "/opt/veriftools/wheels"
 MAX_SHARDS = int(os.environ.get("VF_SHARDS", "14"))
 LEVEL = "exploration"
+OUT = os.path.abspath(os.environ.get("VF_OUT", ROOT))   # where evidence/ and replay/ are written (self-tests redirect it)
 
 
 # ----------------------------------------------------------------------------- helpers
@@ -258,7 +259,7 @@ def _decide(prop, tier, seed, check, budget, results, failures, contracts, wall,
 
     known = load_known_findings(prop)
     lines, real, known_seen = [], [], Counter()
-    replay_dir = os.path.join(ROOT, "replay", prop)
+    replay_dir = os.path.join(OUT, "replay", prop)
     for v in violations:
         if v["key"] in known:
             known_seen[v["key"]] += 1
@@ -278,7 +279,7 @@ def _decide(prop, tier, seed, check, budget, results, failures, contracts, wall,
         with open(path, "w", encoding="utf-8") as fp:
             json.dump({"property": prop, "key": v["key"], "what": v["what"], "case": v["case"],
                        "detail": v["detail"], "seed": seed, "tier": tier}, fp, indent=1, sort_keys=True)
-        lines.append(f"VIOLATION property={prop} replay={os.path.relpath(path, ROOT)}  [{v['key']}] {v['what']}")
+        lines.append(f"VIOLATION property={prop} replay={os.path.relpath(path, OUT)}  [{v['key']}] {v['what']}")
 
     n_real = sum(c for k, c in vcounts.items() if k not in known)
 
@@ -321,8 +322,8 @@ def _decide(prop, tier, seed, check, budget, results, failures, contracts, wall,
         "violations": n_real,
     }
     if not replay:
-        os.makedirs(os.path.join(ROOT, "evidence"), exist_ok=True)
-        with open(os.path.join(ROOT, "evidence", f"{prop}.json"), "w", encoding="utf-8") as fp:
+        os.makedirs(os.path.join(OUT, "evidence"), exist_ok=True)
+        with open(os.path.join(OUT, "evidence", f"{prop}.json"), "w", encoding="utf-8") as fp:
             json.dump(jsonable(evidence), fp, indent=1)
 
     max_lines = int(os.environ.get("VF_MAX_LINES", "40"))
